@@ -249,7 +249,7 @@ def derives_from(body, local, root, depth=0, seen=None):
         seen = set()
     if local == root:
         return True
-    if local in seen or depth > 12:
+    if local in seen or depth > 40:
         return False
     seen.add(local)
     for (b, i, kind, payload) in body.defs().get(local, []):
